@@ -3,9 +3,11 @@
 set -e
 HERE="$(cd "$(dirname "${BASH_SOURCE[0]}")" && pwd)"
 export CARGO_NET_OFFLINE=true
+REPO="${VERIF_REPO:-/repo}"
+ln -sfn "$REPO" "$HERE/sim/repo-link"
 cd "$HERE/sim"
 env -u CARGO_BUILD_TARGET_DIR CARGO_TARGET_DIR="$HERE/sim/target" RUSTFLAGS="--cfg packing_verif -Awarnings" cargo build --release --offline --workspace
-cd /repo
+cd "$REPO"
 env -u RUSTFLAGS -u CARGO_TARGET_DIR -u CARGO_BUILD_TARGET_DIR cargo build --release --offline --bin packing --target-dir "$HERE/sim/target-cli"
 mkdir -p "$HERE/evidence" "$HERE/replay"
 echo "setup ok"
